@@ -303,7 +303,7 @@ func typeKey(t types.Type) string {
 	if n == nil || n.Obj() == nil || n.Obj().Pkg() == nil {
 		return types.TypeString(t, nil)
 	}
-	return relPkg(n.Obj().Pkg().Path()) + "." + n.Obj().Name()
+	return relPkg(n.Obj().Pkg().Path()) + "." + cTypeName(n.Obj())
 }
 
 // fieldOf returns the struct field selected by a FieldAddr/Field instruction.
@@ -329,7 +329,7 @@ func fieldKeyAddr(fa *ssa.FieldAddr) string {
 	if fv == nil {
 		return "?"
 	}
-	return typeKey(fa.X.Type()) + "." + fv.Name()
+	return typeKey(fa.X.Type()) + "." + cFieldName(fv)
 }
 
 // instrsOf iterates all instructions of a function.
